@@ -155,7 +155,15 @@ class Ctx:
     def _validate_raw(self, module, records, cfg=None, shard=40000, env=None, timeout=3000):
         if not records:
             return []
-        shards = [records[i:i + shard] for i in range(0, len(records), shard)]
+        # shard only at case boundaries (a behaviour must not be split across validators)
+        shards, cur = [], []
+        for r in records:
+            if len(cur) >= shard and cur[-1].get("cid") != r.get("cid"):
+                shards.append(cur)
+                cur = []
+            cur.append(r)
+        if cur:
+            shards.append(cur)
         jobs = []
         for k, sh in enumerate(shards):
             tag = self.tag("val")
